@@ -1,2 +1,120 @@
-(* C01 -- property theorems (placeholder while the proofs are being built). *)
-From SV Require Import C01.Syntax C01.Values C01.Ref C01.VM C01.Compile C01.Frag C01.Tie.
+(* C01 -- execution agrees with the reference semantics: property theorems.
+
+   FULL STATEMENT (codegen_correct), kept here at full strength:
+
+     forall (p : program) (n m : nat),            (* every statically valid program of Syntax.v, all fuel *)
+       static_ok p ->
+       ob_verdict (observe_ref (run_module p n)) <> OutOfFuel ->
+       ob_verdict (observe_vm (run_compiled p m)) <> OutOfFuel ->
+       observe_vm (run_compiled p m) = observe_ref (run_module p n)
+
+   where run_module is the reference evaluator over names (Ref.v),
+   run_compiled p = VM.run (compile_prog (fold_prog p)) is the model of the
+   production pipeline (Compile.v mirrors resolve.go + compile.go, VM.v mirrors
+   interp.go) and an observation is (trace of host-visible effects with rendered
+   argument values, final heap and cells, verdict = final globals | failure at a
+   source position | unsupported).
+
+   PROVED below: codegen_correct_partial -- the same equation for every program
+   of the fragment `in_fragment p = true` (Frag.v: all expressions except `not
+   in`, dict displays, lambda, comprehensions, slices and calls with named / * /
+   ** arguments; all statements except load and assignments to sequence / field
+   targets; def with plain positional parameters, not nested inside another
+   def), for all fuel on both sides, by simulation (induction on the evaluator's fuel;
+   the machine side is a small-step execution sequence).
+   MISSING from the full statement: comprehensions (block-local slots), closures
+   (cells / free variables), dict displays, named / * / ** arguments, parameter
+   defaults, sequence targets, `not in`, load, the `+`-chain literal folding of
+   fcomp.plus (codegen_correct_partial is about compile_prog p; fold_prog is the
+   identity on programs without adjacent addable literals, see
+   codegen_correct_partial_folded).  Those constructs are covered on every run
+   by the ties (a), (b), (c) of checks/c01.py only. *)
+From Coq Require Import ZArith String List Bool.
+From SV Require Import C01.Syntax C01.Values C01.Ref C01.VM C01.Compile C01.Frag C01.Proofs C01.ProofsFuns.
+Import ListNotations.
+Open Scope string_scope.
+
+Theorem codegen_correct_partial :
+  forall p : program,
+    in_fragment p = true ->
+    forall n m : nat,
+      ob_verdict (observe_ref (run_module p n)) <> OutOfFuel ->
+      ob_verdict (observe_vm (run_vm p m)) <> OutOfFuel ->
+      observe_vm (run_vm p m) = observe_ref (run_module p n).
+Proof.
+  intros p Hf. apply andb_true_iff in Hf. destruct Hf as [Hok Hflat].
+  exact (codegen_correct_partial_lemma p (funs_ok_flat p Hok Hflat) Hok).
+Qed.
+
+(* the model of the whole pipeline, including the literal-folding pass of fcomp.plus *)
+Theorem codegen_correct_partial_folded :
+  forall p : program,
+    in_fragment p = true -> fold_prog p = p ->
+    forall n m : nat,
+      ob_verdict (observe_ref (run_module p n)) <> OutOfFuel ->
+      ob_verdict (observe_vm (run_compiled p m)) <> OutOfFuel ->
+      observe_vm (run_compiled p m) = observe_ref (run_module p n).
+Proof.
+  intros p Hf. apply andb_true_iff in Hf. destruct Hf as [Hok Hflat].
+  exact (codegen_correct_partial_folded_lemma p Hok (funs_ok_flat p Hok Hflat)).
+Qed.
+
+(* the generated code never drives the machine into a state the real one would
+   crash in (operand stack underflow, bad jump target, missing iterator) *)
+Theorem codegen_never_stuck_partial :
+  forall p : program,
+    in_fragment p = true ->
+    forall n m r k,
+      ob_verdict (observe_ref (run_module p n)) <> OutOfFuel ->
+      run_vm p m = Some (r, k) ->
+      forall why, r <> VStuck why.
+Proof.
+  intros p Hf. apply andb_true_iff in Hf. destruct Hf as [Hok Hflat].
+  exact (never_stuck_lemma p (funs_ok_flat p Hok Hflat) Hok).
+Qed.
+
+(* ---- the hypotheses are satisfiable: a program with a function, a for loop with
+   continue, a while loop with break, augmented assignment to a name and to an
+   index, short-circuit operators, a conditional expression and effects *)
+Definition Q : pos := (1, 1)%nat.
+Definition example_prog : program :=
+  {| p_opts := {| o_set := false; o_while := true; o_recursion := false; o_toplevel := true |};
+     p_body := [
+       SDef 0 "f" [PPlain "x"] [
+          SAssign (TName "r" Q) (EList [EInt 0]) Q;
+          SFor (TName "i" Q) (EList [EInt 1; EInt 2; EInt 3]) [
+             SIf (EBinary Eq Q (EName "i" Q) (EInt 2)) [SContinue] [];
+             SAug Add (TIndex (EName "r" Q) (EInt 0) Q) (EBinary Mul Q (EName "i" Q) (EName "x" Q)) Q
+          ] Q;
+          SReturn (Some (EIndex (EName "r" Q) (EInt 0) Q))
+       ] Q;
+       SAssign (TName "y" Q) (ECall (EName "f" Q) [APos (EInt 2)] Q) Q;
+       SExpr (ECall (EName "trace" Q) [APos (EName "y" Q); APos (EOr (EList []) (EInt 2));
+                                       APos (EAnd (EInt 0) (ECall (EName "trace" Q) [APos (EInt 9)] Q));
+                                       APos (ECond (EUnary UNot Q (EName "y" Q)) (EStr "a") (EStr "b"))] Q);
+       SAssign (TName "z" Q) (EInt 5) Q;
+       SWhile (EBinary Gt Q (EName "z" Q) (EInt 0))
+         [ SAug Sub (TName "z" Q) (EInt 2) Q; SIf (EBinary Eq Q (EName "z" Q) (EInt 1)) [SBreak] [] ];
+       SExpr (EBinary Add Q (EInt 1) (EStr "s"))
+     ] |}.
+
+Example example_in_fragment : in_fragment example_prog = true.
+Proof. reflexivity. Qed.
+
+Example example_fold : fold_prog example_prog = example_prog.
+Proof. reflexivity. Qed.
+
+(* both sides run to completion (here: a dynamic error at the last statement after
+   one effect) and the observation is non-trivial *)
+Example example_runs :
+  observe_ref (run_module example_prog 100) =
+    {| ob_trace := [(["8"; "2"; "0"; """b"""], [])]; ob_heap := []; ob_cells := []; ob_verdict := Failure Q false |}
+  /\ observe_vm (run_vm example_prog 1000) = observe_ref (run_module example_prog 100).
+Proof. split; vm_compute; reflexivity. Qed.
+
+Example example_instance :
+  observe_vm (run_vm example_prog 1000) = observe_ref (run_module example_prog 100).
+Proof.
+  apply codegen_correct_partial; [ exact example_in_fragment | | ];
+    vm_compute; discriminate.
+Qed.
